@@ -46,6 +46,8 @@ def run_programs(name, progs, scope, known, *, opts=None, kf_crosstalk="KF-K7-cr
     br = BoundedResult(name, scope, exhaustive=exhaustive)
     br.assumptions = [
         "S2 circuit model (spec/circuit.py) and S3 source semantics (spec/facto_sem.py) are the trusted oracle",
+        "S2: a circuit wire from a connector to itself (emitted for an entity whose condition reads its own report) is taken to form a one-entity network; "
+        "a single-connector entity reads nothing on a colour it has no wire on (game behaviour, not checkable offline)",
         "bounded: the program-shape quantifier is restricted to the stated scope; the input-value quantifier is "
         "decided by SMT over all int32 valuations per program",
     ]
